@@ -195,6 +195,8 @@ func (r *readableVariable[Type]) OnUpdate(callback func(prevValue, newValue Type
 
 	r.valueMutex.Unlock()
 
+	verifOnUpdateWindow()
+
 	var emptyValue Type
 	if currentValue != emptyValue || lo.First(triggerWithInitialZeroValue) {
 		createdCallback.Invoke(emptyValue, currentValue)
